@@ -337,10 +337,11 @@ def _make_simlink_class():
 
         def send_packet(self, pk):
             s = dsched.Sched.active
+            closed_at_entry = self.closed       # a send that was entered before close() counts as sent on an open link
             s.yield_point()
             w = self.world
             data = bytes(pk.data)
-            self.tx.append((s.now, pk.port, pk.channel, data, self.closed))
+            self.tx.append((s.now, pk.port, pk.channel, data, closed_at_entry))
             if self.closed:
                 return
             if w.on_send:
